@@ -443,8 +443,11 @@ def evaluate(e, env):
             if _own_yield(h): return _gen_call(h.body, env2)        # eagerly (the list of the yielded values) unless env["__lazygen__"]
             return run_block(h.body, env2)
         # a call of a sample callable supplied by the analysis (tagged stand-in for a provider / processor object)
+        evaluated_ = True
         try: fv = evaluate(e.func, env)
-        except Unsupported: fv = None
+        except Unsupported: fv = None; evaluated_ = False
+        if evaluated_ and (fv is None or (isinstance(fv, (str, int, float, tuple, list, dict)) and not isinstance(fv, (Inst, SList)) and not (isinstance(fv, dict) and any(isinstance(k_, str) and k_.startswith(".") for k_ in fv)))):
+            raise Raised("TypeError", "'%s' object is not callable" % type(fv).__name__)          # calling a value that is not callable
         if isinstance(fv, Callee) and not e.keywords: return fv(*_args(e.args, env))
         if isinstance(fv, PyFn):
             kw_ = {}
